@@ -221,6 +221,10 @@ impl<'a> VisitMut for CfgEval<'a> {
                 e.fields.push(f);
             }
         }
+        if e.rest.is_some() && !e.fields.is_empty() && !e.fields.trailing_punct() {
+            // `Self { a: x, ..base }`: the separator before `..` was dropped with the rebuilt field list
+            e.fields.push_punct(Default::default());
+        }
         visit_mut::visit_expr_struct_mut(self, e);
     }
     fn visit_pat_struct_mut(&mut self, p: &mut PatStruct) {
